@@ -15,14 +15,15 @@ CHECKS = {
     },
     'C01': {
         'technique': 'property-based round-trip testing: accepted statements (test corpus, random derivations of the '
-                     'live grammar in tame mode, accepted token mutations) x 3 dialects; oracle = structural tree '
+                     'live grammar -- two thirds tame, one third wild --, accepted token mutations, option-list values) '
+                     'plus the bounded-exhaustive set of production-pair sentences x 3 dialects; oracle = structural tree '
                      'identity by reflection after print -> re-parse, print idempotence, copy() identity',
         'level': 'Sampled search over the accepted language with an exact round-trip oracle (structural identity of '
                  'every node field, stronger than the library\'s own to_tree/__eq__). Known printer defects are '
                  'matched by failure kind + tree-feature tags and excluded so that the search continues behind them.',
-        'note': 'The first parse is only a filter. Keyword-spelled identifiers via `id: KEYWORD` productions, '
-                'statements as sub-queries and token-soup raw queries are excluded by construction in the registered '
-                'run (tame mode; counted); struct oracle trusts Python reflection only.',
+        'note': 'The first parse is only a filter. Two thirds of the random derivations are tame (no keyword-spelled '
+                'identifiers via `id: KEYWORD`, no statements as sub-queries, no token-soup raw queries); the wild third '
+                'and the production-pair sentences cover those; struct oracle trusts Python reflection only.',
     },
     'C02': {
         'technique': 'property-based robustness testing / fuzzing with structured generators: grammar derivations, '
